@@ -79,3 +79,266 @@ Qed.
 
 Lemma geto_remo_top p on : p <> [] -> geto (remo on p) p = None.
 Proof. apply geto_remo_self. Qed.
+
+(** * Serving at [root] is serving the subtree *)
+
+Section Reloc.
+  Variable root : path.
+  Variables (sb : option node) (n0 : node).
+  Hypothesis Hview : geto sb root = Some n0.
+
+  Let inner := Some n0.
+
+  Lemma look p : geto sb (hp root p) = geto inner (hp [] p).
+  Proof. unfold hp, inner. cbn [app]. rewrite geto_app, Hview. reflexivity. Qed.
+
+  Lemma look_parent p : p <> [] -> geto sb (parent (hp root p)) = geto inner (parent (hp [] p)).
+  Proof.
+    intros Hp. unfold hp, parent. cbn [app]. rewrite removelast_app by exact Hp.
+    rewrite geto_app, Hview. reflexivity.
+  Qed.
+
+  (** mapping below the root *)
+  Lemma set_view p x :
+    match seto sb (hp root p) x, seto inner (hp [] p) x with
+    | Some t, Some n' => geto (Some t) root = Some n'
+    | None, None => True
+    | _, _ => False
+    end.
+  Proof.
+    unfold hp, inner. cbn [app]. rewrite (seto_app root sb n0 p x Hview).
+    destruct (seto (Some n0) p x) as [n'|]; [|exact I].
+    destruct (seto_exists root sb n0 n' Hview) as [t Ht]. rewrite Ht.
+    apply (geto_seto_self root sb n' t Ht).
+  Qed.
+
+  (** unmapping below (or at) the root *)
+  Lemma rem_view p : geto (remo sb (hp root p)) root = remo inner (hp [] p).
+  Proof.
+    unfold hp, inner. cbn [app]. destruct p as [|s q].
+    - rewrite app_nil_r. cbn [remo]. destruct root as [|r0 rr]; [reflexivity|].
+      apply geto_remo_self. discriminate.
+    - apply geto_remo_app; [exact Hview|discriminate].
+  Qed.
+End Reloc.
+
+(** the relation kept by every step: what is mapped at the root is the inner state *)
+Definition views (root : path) (sb inner : option node) : Prop := geto sb root = inner.
+
+Lemma checks_nonempty root sb src dst ow ss n ds cr :
+    copy_move_checks root sb src dst ow = GOk (ss, n, ds, cr) -> ss <> [] /\ ds <> [].
+  Proof.
+    unfold copy_move_checks.
+    destruct (segs_of src) as [ss0|]; [|discriminate].
+    destruct (segs_of dst) as [ds0|]; [|discriminate].
+    destruct (is_prefix ss0 ds0 || is_prefix ds0 ss0) eqn:E; [discriminate|].
+    destruct (geto sb (hp root ss0)); [|discriminate].
+    destruct (negb (is_dir (geto sb (hp root (parent ds0))))); [discriminate|].
+    intros H.
+    assert (ss0 = ss /\ ds0 = ds) as [-> ->]
+      by (destruct (exists_ (geto sb (hp root ds0))); [destruct ow|]; inversion H; split; reflexivity).
+    apply Bool.orb_false_iff in E. destruct E as [E1 E2].
+    split; intros ->.
+    - cbn in E1. discriminate.
+    - cbn in E2. discriminate.
+  Qed.
+
+
+Section Serve.
+  Variable root : path.
+
+  Lemma segs_of_any name : segs_of name = segs_of name. Proof. reflexivity. Qed.
+
+  Lemma stat_view sb n0 dt name :
+    geto sb root = Some n0 -> stat root sb dt name = stat [] (Some n0) dt name.
+  Proof.
+    intros H. unfold stat. destruct (segs_of name) as [segs|]; [|reflexivity].
+    rewrite (look root sb n0 H). reflexivity.
+  Qed.
+
+  Lemma checks_view sb n0 src dst ow :
+    geto sb root = Some n0 ->
+    copy_move_checks root sb src dst ow = copy_move_checks [] (Some n0) src dst ow.
+  Proof.
+    intros H. unfold copy_move_checks.
+    destruct (segs_of src) as [ss|]; [|reflexivity].
+    destruct (segs_of dst) as [ds|]; [|reflexivity].
+    rewrite !(look root sb n0 H). reflexivity.
+  Qed.
+
+  Ltac fin Hv := split; [reflexivity|exact Hv].
+
+  Lemma put_view sb n0 r : geto sb root = Some n0 ->
+    snd (do_put root sb r) = snd (do_put [] (Some n0) r) /\
+    views root (fst (do_put root sb r)) (fst (do_put [] (Some n0) r)).
+  Proof.
+    intros Hv. unfold do_put, views.
+    destruct (segs_of (rpath r)) as [segs|]; [|fin Hv].
+    rewrite !(look root sb n0 Hv).
+    destruct (req_cond r _); [fin Hv|].
+    destruct (is_dir (geto (Some n0) (hp [] segs)) || _); [fin Hv|].
+    destruct (negb (is_dir (geto (Some n0) (hp [] (parent segs))))); [fin Hv|].
+    destruct (body_fails r); [fin Hv|].
+    pose proof (set_view root sb n0 Hv segs (File (body r) (stamp r))) as Hs.
+    destruct (seto sb (hp root segs) (File (body r) (stamp r))) as [t|];
+      destruct (seto (Some n0) (hp [] segs) (File (body r) (stamp r))) as [n'|]; try contradiction.
+    - split; [reflexivity|exact Hs].
+    - fin Hv.
+  Qed.
+
+  Lemma delete_view sb n0 r : geto sb root = Some n0 ->
+    snd (do_delete root sb r) = snd (do_delete [] (Some n0) r) /\
+    views root (fst (do_delete root sb r)) (fst (do_delete [] (Some n0) r)).
+  Proof.
+    intros Hv. unfold do_delete, views. rewrite (stat_view sb n0 _ _ Hv).
+    destruct (stat [] (Some n0) (dir_tag r) (rpath r)) as [[segs n]|]; [|fin Hv].
+    destruct (req_cond r _); [fin Hv|].
+    split; [reflexivity|]. cbn [fst]. apply (rem_view root sb n0 Hv).
+  Qed.
+
+  Lemma mkcol_view sb n0 r : geto sb root = Some n0 ->
+    snd (do_mkcol root sb r) = snd (do_mkcol [] (Some n0) r) /\
+    views root (fst (do_mkcol root sb r)) (fst (do_mkcol [] (Some n0) r)).
+  Proof.
+    intros Hv. unfold do_mkcol, views.
+    destruct (negb (String.eqb (h_ctype r) "")); [fin Hv|].
+    destruct (segs_of (rpath r)) as [segs|]; [|fin Hv].
+    rewrite (look root sb n0 Hv).
+    destruct (exists_ (geto (Some n0) (hp [] segs))) eqn:Ex; [fin Hv|].
+    assert (Hne : segs <> []) by (intros ->; cbn in Ex; discriminate).
+    rewrite (look_parent root sb n0 Hv segs Hne).
+    destruct (negb (is_dir (geto (Some n0) (parent (hp [] segs))))); [fin Hv|].
+    pose proof (set_view root sb n0 Hv segs (Dir [])) as Hs.
+    destruct (seto sb (hp root segs) (Dir [])) as [t|];
+      destruct (seto (Some n0) (hp [] segs) (Dir [])) as [n'|]; try contradiction.
+    - split; [reflexivity|exact Hs].
+    - fin Hv.
+  Qed.
+
+  Lemma copy_view sb n0 r dst rec ow : geto sb root = Some n0 ->
+    snd (do_copy root sb r dst rec ow) = snd (do_copy [] (Some n0) r dst rec ow) /\
+    views root (fst (do_copy root sb r dst rec ow)) (fst (do_copy [] (Some n0) r dst rec ow)).
+  Proof.
+    intros Hv. unfold do_copy, views. rewrite (checks_view sb n0 _ _ _ Hv).
+    destruct (copy_move_checks [] (Some n0) (rpath r) dst ow) as [[[[ss n] ds] cr]|] eqn:Ec; [|fin Hv].
+    destruct (checks_nonempty _ _ _ _ _ _ _ _ _ Ec) as [_ Hds].
+    set (x := if rec then copy_tree (stamp r) n else copy_shallow (stamp r) n).
+    pose proof (rem_view root sb n0 Hv ds) as Hr.
+    destruct (remo (Some n0) (hp [] ds)) as [n1|] eqn:E1.
+    2:{ apply remo_some_none in E1. unfold hp in E1. cbn in E1. congruence. }
+    pose proof (set_view root (remo sb (hp root ds)) n1 Hr ds x) as Hs.
+    destruct (seto (remo sb (hp root ds)) (hp root ds) x) as [t|];
+      destruct (seto (Some n1) (hp [] ds) x) as [n'|]; try contradiction.
+    - split; [reflexivity|exact Hs].
+    - fin Hv.
+  Qed.
+
+  Lemma move_view sb n0 r dst ow : geto sb root = Some n0 ->
+    snd (do_move root sb r dst ow) = snd (do_move [] (Some n0) r dst ow) /\
+    views root (fst (do_move root sb r dst ow)) (fst (do_move [] (Some n0) r dst ow)).
+  Proof.
+    intros Hv. unfold do_move, views. rewrite (checks_view sb n0 _ _ _ Hv).
+    destruct (copy_move_checks [] (Some n0) (rpath r) dst ow) as [[[[ss n] ds] cr]|] eqn:Ec; [|fin Hv].
+    destruct (checks_nonempty _ _ _ _ _ _ _ _ _ Ec) as [Hss Hds].
+    pose proof (rem_view root sb n0 Hv ds) as Hr.
+    destruct (remo (Some n0) (hp [] ds)) as [n1|] eqn:E1.
+    2:{ apply remo_some_none in E1. unfold hp in E1. cbn in E1. congruence. }
+    pose proof (rem_view root (remo sb (hp root ds)) n1 Hr ss) as Hr2.
+    destruct (remo (Some n1) (hp [] ss)) as [n2|] eqn:E2.
+    2:{ apply remo_some_none in E2. unfold hp in E2. cbn in E2. congruence. }
+    pose proof (set_view root (remo (remo sb (hp root ds)) (hp root ss)) n2 Hr2 ds n) as Hs.
+    destruct (seto (remo (remo sb (hp root ds)) (hp root ss)) (hp root ds) n) as [t|];
+      destruct (seto (Some n2) (hp [] ds) n) as [n'|]; try contradiction.
+    - split; [reflexivity|exact Hs].
+    - fin Hv.
+  Qed.
+End Serve.
+
+Section Main.
+  Variable root : path.
+
+  Lemma options_view sb n0 r : geto sb root = Some n0 ->
+    do_options root sb r = (sb, snd (do_options [] (Some n0) r)) /\ fst (do_options [] (Some n0) r) = Some n0.
+  Proof.
+    intros Hv. unfold do_options. destruct (segs_of (rpath r)) as [segs|]; [|split; reflexivity].
+    rewrite (look root sb n0 Hv). split; reflexivity.
+  Qed.
+
+  Lemma get_view sb n0 r h : geto sb root = Some n0 ->
+    do_get root sb r h = (sb, snd (do_get [] (Some n0) r h)) /\ fst (do_get [] (Some n0) r h) = Some n0.
+  Proof.
+    intros Hv. unfold do_get. rewrite (stat_view root sb n0 _ _ Hv).
+    destruct (stat [] (Some n0) (dir_tag r) (rpath r)) as [[segs [c m|ch]]|]; split; reflexivity.
+  Qed.
+
+  Lemma propfind_view sb n0 r : geto sb root = Some n0 ->
+    do_propfind root sb r = (sb, snd (do_propfind [] (Some n0) r)) /\ fst (do_propfind [] (Some n0) r) = Some n0.
+  Proof.
+    intros Hv. unfold do_propfind. rewrite (stat_view root sb n0 _ _ Hv).
+    destruct (pf r); try (split; reflexivity);
+      (destruct (String.eqb (h_depth r) ""); [|destruct (String.eqb (h_depth r) "0"); [|destruct (String.eqb (h_depth r) "1"); [|destruct (String.eqb (h_depth r) "infinity"); [|split; reflexivity]]]]);
+      destruct (stat [] (Some n0) (dir_tag r) (rpath r)) as [[segs n]|]; split; reflexivity.
+  Qed.
+
+  Lemma copy_move_view sb n0 r : geto sb root = Some n0 ->
+    snd (do_copy_move root sb r) = snd (do_copy_move [] (Some n0) r) /\
+    views root (fst (do_copy_move root sb r)) (fst (do_copy_move [] (Some n0) r)).
+  Proof.
+    intros Hv. unfold do_copy_move.
+    destruct (h_dest r) as [| |dst]; try (split; [reflexivity|exact Hv]).
+    destruct (String.eqb (h_overwrite r) ""); [|destruct (String.eqb (h_overwrite r) "T"); [|destruct (String.eqb (h_overwrite r) "F"); [|split; [reflexivity|exact Hv]]]];
+    (destruct (String.eqb (h_depth r) ""); [|destruct (String.eqb (h_depth r) "0"); [|destruct (String.eqb (h_depth r) "1"); [|destruct (String.eqb (h_depth r) "infinity"); [|split; [reflexivity|exact Hv]]]]]);
+    destruct (String.eqb (meth r) "COPY"); cbv iota; cbn [N.eqb Pos.eqb negb];
+    first [apply copy_view; exact Hv|apply move_view; exact Hv|split; [reflexivity|exact Hv]].
+  Qed.
+
+  (** Serving at [root] inside any sandbox = serving the subtree at its own top:
+      same response, and what is mapped at the root afterwards is what the subtree
+      becomes. *)
+  Theorem serve_relocates sb n0 r : geto sb root = Some n0 ->
+    snd (serve root sb r) = snd (serve [] (Some n0) r) /\
+    geto (fst (serve root sb r)) root = fst (serve [] (Some n0) r).
+  Proof.
+    intros Hv. unfold serve. cbv zeta.
+    destruct (String.eqb (meth r) "OPTIONS").
+    { destruct (options_view sb n0 r Hv) as [H1 H2]. rewrite H1. cbn [fst snd]. rewrite H2. split; [reflexivity|exact Hv]. }
+    destruct (String.eqb (meth r) "GET").
+    { destruct (get_view sb n0 r false Hv) as [H1 H2]. rewrite H1. cbn [fst snd]. rewrite H2. split; [reflexivity|exact Hv]. }
+    destruct (String.eqb (meth r) "HEAD").
+    { destruct (get_view sb n0 r true Hv) as [H1 H2]. rewrite H1. cbn [fst snd]. rewrite H2. split; [reflexivity|exact Hv]. }
+    destruct (String.eqb (meth r) "PUT"); [apply put_view; exact Hv|].
+    destruct (String.eqb (meth r) "DELETE"); [apply delete_view; exact Hv|].
+    destruct (String.eqb (meth r) "PROPFIND").
+    { destruct (propfind_view sb n0 r Hv) as [H1 H2]. rewrite H1. cbn [fst snd]. rewrite H2. split; [reflexivity|exact Hv]. }
+    destruct (String.eqb (meth r) "MKCOL"); [apply mkcol_view; exact Hv|].
+    destruct (String.eqb (meth r) "COPY" || String.eqb (meth r) "MOVE"); [apply copy_move_view; exact Hv|].
+    split; [reflexivity|exact Hv].
+  Qed.
+
+  (** Non-interference: two sandboxes that agree on what is mapped at the served
+      directory (an existing one) give the same response and agree afterwards,
+      whatever lies beside or above the root in either of them. *)
+  Corollary serve_noninterference sb1 sb2 r :
+    geto sb1 root = geto sb2 root -> exists_ (geto sb1 root) = true ->
+    snd (serve root sb1 r) = snd (serve root sb2 r) /\
+    geto (fst (serve root sb1 r)) root = geto (fst (serve root sb2 r)) root.
+  Proof.
+    intros Heq Hex. destruct (geto sb1 root) as [n0|] eqn:E1; [|discriminate].
+    symmetry in Heq.
+    destruct (serve_relocates sb1 n0 r E1) as [A1 B1].
+    destruct (serve_relocates sb2 n0 r Heq) as [A2 B2].
+    split; congruence.
+  Qed.
+End Main.
+
+(** Why the served directory must exist: MKCOL of "/" on a missing root consults the
+    root's parent, which lies outside. *)
+Example mkcol_root_reads_parent :
+  let r := {| meth := "MKCOL"; rpath := "/"; h_depth := ""; h_overwrite := ""; h_dest := DestAbsent; h_ctype := "";
+              h_if_match := ""; h_if_none_match := ""; d_if_match := None; d_if_none_match := None;
+              body := ""; body_fails := false; pf := PfAllProp; stamp := 0; dir_tag := "" |}%string in
+  let sb1 := Some (Dir [("top", Dir [])])%string in
+  let sb2 := Some (Dir [("top", File "x" 0)])%string in
+  geto sb1 ["top"; "root"]%string = geto sb2 ["top"; "root"]%string /\
+  status (snd (serve ["top"; "root"]%string sb1 r)) <> status (snd (serve ["top"; "root"]%string sb2 r)).
+Proof. vm_compute. split; [reflexivity|discriminate]. Qed.
